@@ -72,7 +72,7 @@ def wire_encode(parts, boundary, nl, pad, fold):
     out = b""
     for p in parts:
         out += b"--" + boundary + pad + nl
-        cd = b'Content-Disposition: form-data; name="' + p["name"].encode() + b'"'
+        cd = b'Content-Disposition: form-data' + (b'; name="' + p["name"].encode() + b'"' if p["name"] is not None else b"")
         if p["filename"] is not None:
             cd += b";" + (nl + fold if fold is not None else b" ") + b'filename="' + p["filename"].encode() + b'"'
         out += cd + nl
@@ -90,7 +90,9 @@ def run_wireforms(r, ni):
     boundary = b"bd"
     forms = [[P("f", None, b"ab"), P("u", "C:\\reports\\q3.bin", b"0123456789"), P("g", None, b"cd")],
              [P("u", "plain.bin", b"UPLOAD"), P("f", None, "é".encode())],
-             [P("f", None, b"only a field")]]
+             [P("f", None, b"only a field")],
+             # parts whose Content-Disposition names no field: parts all the same, counted like any other
+             [P(None, None, b"x"), P("f", None, b"ab"), P(None, "up.bin", b"0123"), P("g", None, b"c"), P(None, None, b"")]]
     for fi, parts in enumerate(forms):
         want_items = MR.expected_items(parts)
         n = len(parts)
